@@ -31,6 +31,33 @@ _EDGES = {(a, b) for a in range(8) for b in range(8) if sum(abs(x - y) for x, y 
 # the 48 relabellings of the hexahedron (24 rotations and their mirrored companions)
 SYM48 = [p for p in itertools.permutations(range(8)) if all((p[a], p[b]) in _EDGES for a, b in _EDGES)]
 TOL = 1e-7  # the merge tolerance the property speaks of
+_THEOREM_STATS = {"asked": 0, "clear": 0}
+
+
+def _report_theorem_stats():
+    if _THEOREM_STATS["asked"]:
+        import sys
+
+        print(
+            f"[c18] T_C18_clear_view: hypotheses hold (exactly) for {_THEOREM_STATS['clear']} of "
+            f"{_THEOREM_STATS['asked']} re-orientations sent to the model",
+            file=sys.stderr,
+        )
+
+
+import atexit
+
+atexit.register(_report_theorem_stats)
+
+def _clear_asked(impl) -> list:
+    """the numberings of a case for which the hypotheses of T_C18_clear_view are decided by the model: the first, the
+    last (a scramble where there is one) and the middle one of those that went to the model (same block and view,
+    other numbering / other answer of scipy) — the exact check costs about as much as all other requests of the case"""
+    sent = [r for r in impl["results"] if r["simplices"] is not None and r["gap"] >= TIE and len(r["simplices"]) == 12]
+    n = len(sent)
+    return [sent[i] for i in sorted({0, n // 2, n - 1})] if n else []
+
+
 CLEAR = 1e-3  # margin (difference of unit-normal components) that makes a view "clear"
 TIE = 1e-9  # below this gap (2nd vs 3rd best aligned triangle; cosine of two halves vs 0.5) float and exact arithmetic may differ
 
@@ -459,9 +486,14 @@ class C18(core.Check):
         "the re-orienter model returns the same eight points (each once), its corners lie in the quads the blockMesh "
         "convention names and those quads are made of the best aligned remaining hull triangles, independence from the "
         "initial numbering given the same hull, the 48 relabellings map sides onto sides, and uniqueness of the canonical "
-        "numbering among them. Only validator/oracle-checked: that the returned numbering satisfies Canonical "
-        "(front/top best aligned, all eight triple products positive) and is one of the 48 relabellings of the block in "
-        "clear views (oracle: in every view), and that scipy's hull is a hull."
+        "numbering among them; round 6: in every view in which each pass of the loop has a clear winner (hypotheses "
+        "decided exactly per case by the request c18.clear) the model returns the predicted numbering for every input "
+        "numbering, triangle order and choice of diagonals (T_C18_clear_view, T_C18_canonicalises), it is one of the 48 "
+        "relabellings of the input and right-handed; guards/constants/recipes of the source are regenerated with ast and "
+        "tied to the model (T_C18_tie_*). Only validator/oracle-checked: that the returned numbering satisfies Canonical "
+        "as stated on the side area vectors (the theorem is stated on the hull triangles; the two coincide for planar "
+        "sides), that views without a clear winner give one of the 48 relabellings, and that scipy's hull is a "
+        "triangulation of the six sides (hypothesis of the theorem, decided per case)."
     )
 
     # ------------------------------------------------------------------ generators
@@ -865,6 +897,10 @@ class C18(core.Check):
             ok = [r for r in impl["results"] if "out" in r and -1 not in r["out"]]
             if ok and case["hex"] != "nonconvex" and _clear_view(case["pts"], case["obs"], case["ceil"]):
                 reqs.append(f"c18.canon {_pt(case['obs'])} {_pt(case['ceil'])} {_pts(base[ok[0]['out']])}")
+            # hypotheses of T_C18_clear_view, decided exactly for every numbering that went to the model (the last requests)
+            for r in _clear_asked(impl):
+                tris = ";".join("-".join(map(str, s)) for s in r["simplices"])
+                reqs.append(f"c18.clear {_pt(case['obs'])} {_pt(case['ceil'])} {_pts(base[r['num']])} {tris}")
         return reqs
 
     def compare(self, case: dict, impl: Any, model: List[str]) -> Optional[str]:
@@ -931,9 +967,35 @@ class C18(core.Check):
             if model[pos] != "ok":
                 return f"validator: what scipy.spatial.ConvexHull answered is not a closed convex triangulation: {model[pos]}"
             pos += 1
-        if pos < len(model):  # the validator request
+        asked = _clear_asked(impl)
+        if len(model) - pos - len(asked) == 1:  # the validator request
             if model[pos] != "ok":
                 return f"validator Canonical rejects the implementation's result in a clear view: {model[pos]}"
+            pos += 1
+        # T_C18_clear_view: where its hypotheses hold (decided exactly by the model) the theorem names the numbering
+        margin_clear = case["hex"] != "nonconvex" and _clear_view(case["pts"], case["obs"], case["ceil"])
+        predicted = set()
+        for r in asked:
+            ans = model[pos]
+            pos += 1
+            _THEOREM_STATS["asked"] += 1
+            if ans.startswith("clear "):
+                _THEOREM_STATS["clear"] += 1
+                if "out" not in r:
+                    return f"numbering {r['num']}: T_C18_clear_view applies ({ans}) but the implementation raises {r['err']}"
+                want = "clear [" + ",".join(str(r["num"].index(i)) if i in r["num"] else "8" for i in r["out"]) + "]"
+                if ans != want:
+                    return f"numbering {r['num']}: T_C18_clear_view predicts {ans}, implementation {want}"
+                idx = [int(x) for x in ans[len("clear ["):-1].split(",")]
+                predicted.add(tuple(r["num"][i] for i in idx))
+            elif ans != "unclear":
+                return f"numbering {r['num']}: c18.clear answers {ans}"
+            elif margin_clear and r0 and model and "ok" in model:
+                # guards against a vacuous theorem: a view that is clear by the margin 1e-3 for every triangulation
+                # must satisfy the exact hypotheses
+                return f"numbering {r['num']}: the view is clear by the margin {CLEAR} but the hypotheses of T_C18_clear_view are not met"
+        if len(predicted) > 1:
+            return f"T_C18_canonicalises: different numberings predicted for one block and view: {sorted(predicted)}"
         return None
 
     # ------------------------------------------------------------------ oracle: the property on the implementation
